@@ -94,6 +94,8 @@ type IPCPStateMachine struct {
 	config     IPCPConfig
 	negotiated IPCPNegotiatedOptions
 	sessionID  string // For IP pool allocation
+	// dynamicPeerIP: config.PeerIP was obtained from config.IPPool (by Up), not configured
+	dynamicPeerIP bool
 
 	// Counters
 	restartCount   int
@@ -183,6 +185,7 @@ func (ipcp *IPCPStateMachine) Up() {
 	if ipcp.config.PeerIP == nil && ipcp.config.IPPool != nil {
 		ipcp.config.PeerIP = ipcp.config.IPPool.Allocate(ipcp.sessionID)
 		ipcp.negotiated.PeerIP = ipcp.config.PeerIP
+		ipcp.dynamicPeerIP = ipcp.config.PeerIP != nil
 		ipcp.logger.Debug("Allocated IP for peer",
 			zap.String("ip", ipcp.config.PeerIP.String()),
 		)
@@ -208,6 +211,14 @@ func (ipcp *IPCPStateMachine) Down() {
 	// Release allocated IP
 	if ipcp.config.IPPool != nil && ipcp.negotiated.PeerIP != nil {
 		ipcp.config.IPPool.Release(ipcp.sessionID)
+		if ipcp.dynamicPeerIP {
+			// The address is the pool's again and may be given to another
+			// session: forget it, so that the next Up allocates afresh instead
+			// of negotiating an address this session no longer holds.
+			ipcp.config.PeerIP = nil
+			ipcp.negotiated.PeerIP = nil
+			ipcp.dynamicPeerIP = false
+		}
 	}
 
 	switch ipcp.state {
